@@ -21,6 +21,9 @@ fn main() {
     }
     let prop: &'static str = Box::leak(args[1].clone().into_boxed_str());
     let code = std::panic::catch_unwind(|| {
+        if prop == "C10" && args[2] == "--emit-nonces" {
+            return props::nonce::emit_first_nonces();
+        }
         if args[2] == "--replay" {
             let Some(path) = args.get(3) else { report::machinery_error("--replay needs a file") };
             let txt = std::fs::read_to_string(path).unwrap_or_else(|_| report::machinery_error("cannot read replay file"));
